@@ -59,6 +59,9 @@ ScriptOpen == <<{"Append"}, {"Commit"}, {"Append"}, {"Truncate"}, {"Truncate", "
 ScriptDup == <<{"Append"}, {"Commit"}, {"Truncate"}, {"Append"}, {"Commit"}, {"Restart"}, {"Truncate", "Append"},
                {"Truncate", "Commit"}, {"Truncate", "Restart"}>>
 
+\* plain churn: two commits in their own segments, then consecutive truncations
+ScriptChurn == <<{"Append"}, {"Commit", "Rollback"}, {"Append"}, {"Commit"}, {"Truncate"}, {"Truncate", "Restart"}, {"Truncate"}>>
+
 Init == /\ segs = <<<<>>>> /\ first = 0 /\ cp = [idx |-> -1, recs |-> <<>>]
         /\ series = {} /\ deleted = <<>> /\ nextRef = 0 /\ pend = NoPend /\ acc = {}
         /\ lastW = [l \in Labs |-> NEG] /\ T = 0 /\ dups = {} /\ nops = 0 /\ hist = <<>>
@@ -252,10 +255,15 @@ Class ==
       kdel == Cardinality({cpE[i].ref : i \in {j \in 1..Len(cpE) : cpE[j].k = "S" /\ cpE[j].ref \notin Refs(series')}})
       edge == {cpE[i].k : i \in {j \in 1..Len(cpE) : cpE[j].k # "S" /\ cpE[j].t = T'}}
       dep  == {LogP[i].k : i \in {j \in 1..Len(LogP) : LogP[j].k # "S" /\ LogP[j].ref \notin Refs(series') /\ Live(LogP[j], T')}}
-  IN IF st.a = "Truncate" THEN <<"Truncate", st.ckpt, st.gc > 0, orph, dup, DOMAIN deleted' # {}, kdel, edge, dep, pend.on, Cardinality(series')>>
+      segE == Flat(Flat(segs'))
+      \* kinds of entries outside the checkpoint that depend on a series record kept only by `deleted`
+      out  == {segE[i].k : i \in {j \in 1..Len(segE) : segE[j].k # "S" /\ segE[j].ref \notin Refs(series')}}
+      acts == {hist'[i].a : i \in 1..Len(hist')}       \* which kinds of steps the history contains
+      delNow == {deleted'[r] - first' : r \in DOMAIN deleted'}   \* how far ahead of the first segment series records are kept
+  IN IF st.a = "Truncate" THEN <<"Truncate", st.ckpt, st.gc > 0, orph, dup, delNow, kdel, edge, dep, out, pend.on, Cardinality(series'), acts>>
      ELSE IF st.a = "Restart" THEN <<"Restart", orph, dup, DOMAIN deleted' # {}, dep, cp.idx >= 0, nextRef' < nextRef>>
      ELSE IF st.a = "Append" THEN <<"Append", st.res, st.fresh, st.lit, st.k, dup, cp.idx >= 0, Len(pend.smp)>>
-     ELSE IF st.a = "Commit" THEN <<"Commit", st.nrec, st.cut, orph, dup, cp.idx >= 0, LateSeries'>>
+     ELSE IF st.a = "Commit" THEN <<"Commit", st.nrec, st.cut, orph, dup, cp.idx >= 0, LateSeries', acts>>
      ELSE <<st.a, orph, dup, cp.idx >= 0>>
 Out == PrintT("@@TR " \o ToJson([hist |-> hist', fin |-> Final, win |-> Window, cl |-> ToString(Class)]))
 Emit ==
